@@ -121,3 +121,11 @@ let () =
              (if out = [] then "-" else Stdlib.String.concat "," (Stdlib.List.map (fun (a, b) ->
                 string_of_int (int_of_nat a) ^ ":" ^ string_of_int (int_of_nat b)) out)))
     | _ -> "ERR args")
+
+(* c02.disc <avg,avg,...> -> discriminators by the exact-quotient model of casync's formula *)
+let () =
+  Drv.register "c02.disc" (fun args -> match args with
+    | [avgs] ->
+        Stdlib.String.concat "," (Stdlib.List.map (fun a -> string_of_n (Discriminator.disc_of_avg (n_of_string a)))
+          (Stdlib.String.split_on_char ',' avgs))
+    | _ -> "ERR args")
